@@ -709,7 +709,15 @@ func randResponse(rng *rand.Rand, maxVar int, packSize int) []wPkg {
 		ps = append([]wPkg{randEnv(rng, packSize)}, ps...)
 	}
 	if rng.Intn(8) == 0 && !ps[len(ps)-1].Final {
-		special() // never behind the final DONE (judged domain)
+		special() // a message the consumer sees is never placed behind the final DONE
+	}
+	if rng.Intn(8) == 0 && ps[len(ps)-1].Final {
+		// packages the consumer never sees may follow the final DONE: it stays the end of the response
+		if rng.Intn(2) == 0 {
+			ps = append(ps, randEED(rng, true))
+		} else {
+			ps = append(ps, randEnv(rng, 0))
+		}
 	}
 	return ps
 }
@@ -981,6 +989,8 @@ func rxMain(args []string) error {
 			}
 		}
 		shapes = append(shapes, []wPkg{randEED(rng, false)}, []wPkg{randEED(rng, true), encRetStat(1)}, []wPkg{randEnv(rng, 0), encRetStat(2)},
+			[]wPkg{encEnv([][3]string{{"\x01", "master", "tempdb"}, {"\x02", "us_english", ""}}), encRetStat(3)},
+			[]wPkg{encEnv([][3]string{{"\x03", "utf8", "iso_1"}, {"\x01", "a", "b"}, {"\x02", "", "x"}}), encRetStat(4)},
 			[]wPkg{encLoginAck(5, [4]byte{5, 0, 0, 0}, randName(rng, 6), [4]byte{16, 0, 2, 1})},
 			[]wPkg{encCapability([]int{1, 2}, map[int][]byte{1: capMask(peerReqCaps), 2: capMask(peerResCaps)})},
 			[]wPkg{encDone(pick(rng, tokDone, tokDoneProc, tokDoneInProc), pick(rng, 0x10, 0x1, 0x11), 1, 7)})
